@@ -3,7 +3,7 @@
 From Coq Require Import String.
 From Coq Require Import List NArith Lia Bool Arith.
 From Coq Require Import Init.Byte.
-From FFS Require Import Base.Res Base.Bytes Base.Lit Rlp.Model Rlp.Spec.
+From FFS Require Import Base.Res Base.Bytes Base.Lit Rlp.Model Rlp.Spec Rlp.Header.
 Import ListNotations.
 
 (* trees as written by the harness: leaves in the byte-DSL *)
@@ -35,11 +35,42 @@ Definition out_matches (o : out_bytes) (m : bytes) : bool :=
   | OCks l a b => let '(l', a', b') := cks m in (l =? l')%N && (a =? a')%N && (b =? b')%N
   end.
 
+(* spec-level oracle for an accepted long-form element: the integer denoted by its length bytes
+   (big-endian, Yellow Paper) is the number of payload bytes consumed, i.e. position = 1 + ||length|| + length *)
+Definition long_len_honoured (bs : bytes) (pos : N) : bool :=
+  match bs with
+  | pb :: rest =>
+      let p := b2n pb in
+      let lol := (if (183 <? p) && (p <? 192) then p - 183 else if (247 <? p) then p - 247 else 0)%N in
+      if (lol =? 0)%N then true
+      else (fold_left (fun acc b => acc * 256 + b2n b) (firstn (N.to_nat lol) rest) 0 + 1 + lol =? pos)%N
+  | [] => true
+  end.
+
 Inductive case :=
 (* tree, trailing bytes, Encode() output, Decode(Encode() ++ trailing): class, tree equals input?, position *)
 | CEnc (t : ditem) (trail : bdsl) (enc : out_bytes) (dec_cls : nat) (dec_same : bool) (dec_pos : N)
 (* input bytes, Decode(): class, element (None = nil element), position; re-decode of re-encode stable? *)
-| CDec (input : bdsl) (cls : nat) (elem : option ditem) (pos : N) (stable : bool).
+| CDec (input : bdsl) (cls : nat) (elem : option ditem) (pos : N) (stable : bool)
+(* length-only encoding check for payloads too large to expand here: payload length (not a single-byte
+   string), list?, the bytes the implementation wrote before the payload, total output length.  Judged
+   with Rlp/Header.v, whose functions are proved to be the prefix of the model's / the Yellow Paper's
+   output for every payload of that length. *)
+| CHdr (n : N) (is_list : bool) (hdr : bdsl) (total : N)
+(* rlp.go helpers.  WrapInt(n): the Data bytes, and Data.Int() of them (None = nil) *)
+| CWrapInt (n : N) (w : bdsl) (back : option N)
+(* a Data value (None = nil Data): Int(), IntOrZero(), BytesNotNil(), Address() (None = nil) *)
+| CData (d : option bdsl) (i : option N) (iz : N) (bnn : bdsl) (addr : option bdsl)
+(* WrapAddress(a) (None = nil pointer): the Data bytes *)
+| CWrapAddr (a : option bdsl) (w : bdsl)
+(* Element.ToData() of a tree (None = nil Data) *)
+| CToData (t : ditem) (d : option bdsl).
+
+Definition optN_eqb (a b : option N) : bool :=
+  match a, b with Some x, Some y => (x =? y)%N | None, None => true | _, _ => false end.
+Definition optb_eqb (a b : option bytes) : bool :=
+  match a, b with Some x, Some y => bytes_eqb x y | None, None => true | _, _ => false end.
+Definition oexp (d : option bdsl) : option bytes := option_map bexpand d.
 
 (* result codes: 0 = agree; 1.. = model differs from implementation; 10.. = implementation breaks the
    property (spec oracle) *)
@@ -62,12 +93,39 @@ Definition check_case (c : case) : N :=
       if (c =? 2)%nat then 12                                  (* implementation panicked *)
       else if (c =? 0)%nat && negb (pos <=? N.of_nat (length bs))%N then 13
       else if (c =? 0)%nat && negb stable then 14
+      else if (c =? 0)%nat && negb (long_len_honoured bs pos) then 16
       else match Decode bs, c, elem with
       | Ok (Some t, p), 0%nat, Some e => if item_eqb t (expand e) && (N.of_nat p =? pos)%N then 0 else 3
       | Ok (None, p), 0%nat, None => if (N.of_nat p =? pos)%N then 0 else 3
       | Err _, 1%nat, _ => 0
       | _, _, _ => 3
       end
+  | CHdr n il hdr total =>
+      let h := bexpand hdr in
+      if negb (bytes_eqb h (spec_header_N n il) && (total =? N.of_nat (length h) + n)%N) then 10
+      else if negb (bytes_eqb h (enc_header_N n il)) then 1
+      else 0
+  | CWrapInt n w back =>
+      let wb := bexpand w in
+      (* oracle: the minimal big-endian bytes of the Yellow Paper's BE, and Int() gives the number back *)
+      if negb (bytes_eqb wb (BE n) && optN_eqb back (Some n)) then 15
+      else if negb (item_eqb (WrapInt n) (Str wb) && optN_eqb (DataInt (ToData (WrapInt n))) back) then 5
+      else 0
+  | CData d i iz bnn addr =>
+      let db := oexp d in
+      (* oracle: Address() is the data itself exactly when it has 20 bytes *)
+      let want_addr := match db with Some b => if (length b =? 20)%nat then Some b else None | None => None end in
+      if negb (optb_eqb (oexp addr) want_addr) then 15
+      else if negb (optN_eqb (DataInt db) i && (IntOrZero db =? iz)%N && bytes_eqb (BytesNotNil db) (bexpand bnn)
+                    && optb_eqb (DataAddress db) (oexp addr)) then 5
+      else 0
+  | CWrapAddr a w =>
+      let wb := bexpand w in
+      if negb (bytes_eqb wb (match oexp a with Some b => b | None => [] end)) then 15
+      else if negb (item_eqb (WrapAddress (oexp a)) (Str wb)) then 5
+      else 0
+  | CToData t d =>
+      if negb (optb_eqb (ToData (expand t)) (oexp d)) then 5 else 0
   end.
 
 Fixpoint mismatches_go (i : N) (l : list case) : list (N * N) :=
